@@ -274,6 +274,12 @@ func verifyFunctionCase(prog *Program, ctr *Contracts, key string, disabled map[
 		env.old = ex.entry
 		env.sort = fr.lastSort
 		env.loop = fr.postLoopCtx()
+		// function-scope locals assigned before any branching are visible in postconditions
+		for n, tv := range fr.commonLocalsAtReturns() {
+			if _, clash := env.vars[n]; !clash {
+				env.vars[n] = tv
+			}
+		}
 		bindResults(env, fn.Signature.Results(), results)
 		co := ex.addOblig("cover", "return", prog.pos(fn.Pos()), mkNot(reach), "some return is reachable")
 		co.ExpectSat = true
@@ -636,4 +642,34 @@ func deriveClause(prog *Program, ctr *Contracts, key string, c Clause) (o *Oblig
 	}
 	o = ex.addOblig("post", c.Label, fmt.Sprintf("contract line %d", c.Line), formula(c), "[from "+strings.Join(c.From, ", ")+"] "+c.Src)
 	return
+}
+
+// commonLocalsAtReturns: source variables whose (single) definition dominates every return.
+func (fr *Frame) commonLocalsAtReturns() map[string]TV {
+	var out map[string]TV
+	for _, b := range fr.fn.Blocks {
+		if len(b.Instrs) == 0 {
+			continue
+		}
+		ret, ok := b.Instrs[len(b.Instrs)-1].(*ssa.Return)
+		if !ok {
+			continue
+		}
+		saved := fr.st
+		fr.st = fr.ex.entry
+		ls := fr.localsAtBlock(b, ret)
+		fr.st = saved
+		if out == nil {
+			out = ls
+			continue
+		}
+		for n, tv := range out {
+			o, ok := ls[n]
+			if !ok || o.V.String() != tv.V.String() {
+				delete(out, n)
+			}
+		}
+	}
+	// keep only values that are not address-taken cells (those depend on the state)
+	return out
 }
